@@ -26,7 +26,18 @@ def main():
     try:
         import alpha
         gone = alpha.vanished_names(a.pid, common.REPO)
-        if gone:
+        optional = getattr(mod, "OPTIONAL_PRIVATE", {})
+        if gone and all(g in optional for g in gone):
+            # the vanished names only feed buckets the harness can do without: say that this part of the tie no longer
+            # checks (no failing input from it) and let the remaining buckets search for a concrete failure
+            ck.skipped_private = set(gone)
+            ck.report("tie:private-name-gone:%s" % "+".join(gone),
+                      "private name(s) %s no longer exist in the tree under test; the bucket(s) %s of harness/%s.py are "
+                      "skipped, that part of the tie between the Coq model and the code no longer checks"
+                      % (", ".join(gone), ", ".join(sorted({optional[g] for g in gone})), a.pid.lower()),
+                      {"broken": "correspondence harness/%s.py bucket(s) %s" % (a.pid.lower(), ", ".join(sorted({optional[g] for g in gone})))},
+                      found_input=False)
+        elif gone:
             raise common.TieBroken("private name(s) %s, through which the harness observes or drives the implementation, "
                                    "no longer exist in the tree under test (and no consistent renaming was found)"
                                    % ", ".join(gone))
